@@ -1,7 +1,6 @@
 package verifbench
 
 import (
-	"sync/atomic"
 	"bufio"
 	"encoding/binary"
 	"encoding/json"
@@ -11,6 +10,7 @@ import (
 	"os"
 	"strings"
 	"sync"
+	"sync/atomic"
 	"testing"
 	"time"
 
@@ -22,18 +22,18 @@ import (
 const ruleC16 = "rapid draws strict ping-pong exchanges on the bidi method: 1..30 rounds, per-round payload sizes 0..64 KiB (empty payloads included), streaming client forms {Connect stream, gRPC, gRPC-Web} x streaming targets {Connect, gRPC, gRPC-Web} x same/different codec x same/different compression x compressed or raw frames. The client (request body = pipe) sends message k+1 only after it has RECEIVED response k, where 'received' means: the bytes of the complete converted frame have reached the underlying ResponseWriter and a Flush followed; the handler writes response k only after it has read request k completely. A third of the handlers read through a 4 KiB buffered reader, a quarter of the exchanges run behind a middleware writer that buffers the body and offers Flush and Unwrap. Oracle: every round completes (stalled = no observable step of client, handler or transcoder output for 4 s, three orders of magnitude above a round, or not finished after 20 s), every response frame is followed by a Flush before the next request message is needed, the transcoder never needs request bytes beyond message k to deliver message k, and the final outcome is OK with exactly the exchanged messages. Non-trivial = at least 2 rounds through a converting adapter; distinct by hash(form, target, codecs, compressions, sizes)."
 
 type pingCase struct {
-	Form        string `json:"form"`
-	Target      string `json:"target"`
-	Codec       string `json:"codec"`
-	BackendCodecs []string `json:"backend_codecs"`
-	Compression string `json:"compression"`
-	BackendCompressions []string `json:"backend_compressions"`
-	RespCompress bool  `json:"resp_compress"`
-	RawFrames   []bool `json:"raw_frames,omitempty"`
-	Sizes       []int  `json:"sizes"`
-	BufferedHandler bool `json:"buffered_handler,omitempty"` // the handler reads its request through a 4 KiB buffered reader (as grpc-go or a proxy does) instead of exactly the bytes it needs
-	MiddlewareFlushError bool `json:"middleware_flush_error,omitempty"` // that middleware offers FlushError() error (and Unwrap) instead of Flush()
-	Middleware  bool   `json:"middleware,omitempty"`       // the transcoder sits behind a middleware whose ResponseWriter buffers the body and offers both Flush and Unwrap
+	Form                 string   `json:"form"`
+	Target               string   `json:"target"`
+	Codec                string   `json:"codec"`
+	BackendCodecs        []string `json:"backend_codecs"`
+	Compression          string   `json:"compression"`
+	BackendCompressions  []string `json:"backend_compressions"`
+	RespCompress         bool     `json:"resp_compress"`
+	RawFrames            []bool   `json:"raw_frames,omitempty"`
+	Sizes                []int    `json:"sizes"`
+	BufferedHandler      bool     `json:"buffered_handler,omitempty"`       // the handler reads its request through a 4 KiB buffered reader (as grpc-go or a proxy does) instead of exactly the bytes it needs
+	MiddlewareFlushError bool     `json:"middleware_flush_error,omitempty"` // that middleware offers FlushError() error (and Unwrap) instead of Flush()
+	Middleware           bool     `json:"middleware,omitempty"`             // the transcoder sits behind a middleware whose ResponseWriter buffers the body and offers both Flush and Unwrap
 }
 
 func init() {
@@ -85,7 +85,7 @@ type bufferingMiddleware struct {
 	buf   []byte
 }
 
-func (b *bufferingMiddleware) Header() http.Header { return b.inner.Header() }
+func (b *bufferingMiddleware) Header() http.Header  { return b.inner.Header() }
 func (b *bufferingMiddleware) WriteHeader(code int) { b.inner.WriteHeader(code) }
 func (b *bufferingMiddleware) Write(p []byte) (int, error) {
 	b.buf = append(b.buf, p...)
